@@ -14,100 +14,6 @@ namespace Goyang.Lemmas.Bridge
 open Goyang.Model Goyang.Spec.Tree Goyang.Lemmas.Tree
 open Goyang.Spec.Find (goodName wfKeys wfKeysL WFForest distinct)
 
-/-! ### the cache keys are distinct -/
-
-/-- The call appends rows to the module cache whose keys are new, pairwise different, and are not
-the sequence number of a (sub)module whose conversion is in progress. -/
-def cacheKeys (env : Env) (hseq : (env.reg.mods.map (·.seq)).Nodup) : RelFrame env where
-  R v st st' := ∃ ext : List (Nat × Entry), st'.cache = st.cache ++ ext ∧ (ext.map (·.1)).Nodup ∧
-    (∀ k ∈ ext.map (·.1), k ∉ ckeys st) ∧
-    (∀ k ∈ ext.map (·.1), ∀ m ∈ env.reg.mods, m.seq = k → v.contains (nodeId m m.stmt) = false)
-  refl v st := ⟨[], by simp, by simp, by simp, by simp⟩
-  trans v a b c := by
-    rintro ⟨e1, h1, n1, d1, v1⟩ ⟨e2, h2, n2, d2, v2⟩
-    refine ⟨e1 ++ e2, by rw [h2, h1, List.append_assoc], ?_, ?_, ?_⟩
-    · rw [List.map_append, List.nodup_append]
-      refine ⟨n1, n2, ?_⟩
-      intro x hx y hy hxy
-      subst hxy
-      apply d2 x hy
-      simp only [ckeys, h1, List.map_append, List.mem_append]
-      exact Or.inr hx
-    · intro k hk
-      rw [List.map_append, List.mem_append] at hk
-      rcases hk with hk | hk
-      · exact d1 k hk
-      · intro hk'
-        apply d2 k hk
-        simp only [ckeys, h1, List.map_append, List.mem_append]
-        exact Or.inl hk'
-    · intro k hk
-      rw [List.map_append, List.mem_append] at hk
-      rcases hk with hk | hk
-      · exact v1 k hk
-      · exact v2 k hk
-  weaken v x a b := by
-    rintro ⟨e1, h1, n1, d1, v1⟩
-    refine ⟨e1, h1, n1, d1, ?_⟩
-    intro k hk m hm hmk
-    have := v1 k hk m hm hmk
-    simp only [List.contains_cons, Bool.or_eq_false_iff] at this
-    exact this.2
-  merged v st m := ⟨[], by simp, by simp, by simp, by simp⟩
-  gcache v st x := ⟨[], by simp, by simp, by simp, by simp⟩
-  augs v st x := ⟨[], by simp, by simp, by simp, by simp⟩
-  cache root scope n v st st1 e inv hm hmiss hc := by
-    rintro ⟨e1, h1, n1, d1, v1⟩
-    have hn : n = root.stmt := inv.top hm
-    have hroot1 : root.seq ∉ e1.map (·.1) := by
-      intro hk
-      have := v1 root.seq hk root inv.root_mem rfl
-      rw [← hn] at this
-      simp at this
-    have hroot0 : root.seq ∉ ckeys st := by
-      intro hk
-      simp only [ckeys, List.mem_map] at hk
-      obtain ⟨x, hx, hxk⟩ := hk
-      have := List.find?_eq_none.mp hmiss x hx
-      simp [hxk] at this
-    refine ⟨e1 ++ [(root.seq, e)], by simp [h1], ?_, ?_, ?_⟩
-    · rw [List.map_append, List.nodup_append]
-      refine ⟨n1, by simp, ?_⟩
-      intro x hx y hy hxy
-      simp only [List.map_cons, List.map_nil, List.mem_singleton] at hy
-      subst hxy; subst hy
-      exact hroot1 hx
-    · intro k hk
-      rw [List.map_append, List.mem_append] at hk
-      rcases hk with hk | hk
-      · exact d1 k hk
-      · simp only [List.map_cons, List.map_nil, List.mem_singleton] at hk
-        subst hk; exact hroot0
-    · intro k hk m hm' hmk
-      rw [List.map_append, List.mem_append] at hk
-      rcases hk with hk | hk
-      · have := v1 k hk m hm' hmk
-        simp only [List.contains_cons, Bool.or_eq_false_iff] at this
-        exact this.2
-      · simp only [List.map_cons, List.map_nil, List.mem_singleton] at hk
-        subst hk
-        have : m = root := Fuel.eq_of_nodup_map (·.seq) env.reg.mods hseq m hm' root inv.root_mem hmk
-        subst this
-        rw [← hn]; exact hc
-
-/-- One entry per converted (sub)module: the keys of the cache the conversion leaves are distinct. -/
-theorem tstate_ckeys_nodup (reg : Registry) (opts : Opts) (plug : Plug) (hL : Fuel.LoadedShape reg) :
-    (ckeys (tstate reg opts plug)).Nodup := by
-  unfold tstate
-  refine (foldl_inv (fun st : TState => (ckeys st).Nodup ∧ True) _ _ _ ⟨by simp [ckeys], trivial⟩ ?_).1
-  intro st m hm ⟨hst, _⟩
-  refine ⟨?_, trivial⟩
-  obtain ⟨ext, h1, n1, d1, _⟩ := toEntry_rel (cacheKeys (envOf reg opts plug) hL.seqs) (entryFuel reg) m [] m.stmt [] st
-    (InvT.ofMod (keyOrder_mem reg m hm))
-  simp only [ckeys, h1, List.map_append]
-  rw [List.nodup_append]
-  exact ⟨hst, n1, fun x hx y hy hxy => d1 y hy (hxy ▸ hx)⟩
-
 /-! ### every later stage keeps the list of tree ids -/
 
 theorem fkeys_augmentTree (reg : Registry) (id : Nat) (addErrors : Bool) (s : PState) :
